@@ -210,7 +210,45 @@ Theorem C17_normal_negative_power_refuted :
   opt_eqb mval_eqb (eval (fops true tb0) pinned [MB n1] (EPow (EPow (EVar 0) (-1)%float) (-1)%float)) (Some (MB n1)) = false.
 Proof. exact normal_negative_power_refuted. Qed.
 
+(* whole-message statements for NormalMessage: class, id, limits, shape, parameters and the (defective) log_norm *)
+Theorem C17_normal_div_mul_msg_partial : forall a b : rmsg, normal_valid a -> nvalid b -> length (elems a) = length (elems b) ->
+  let r := b_div Rops (b_sum Rops a [b]) b in
+  fam r = FNormal /\ bmeta r = bmeta a /\ elems r = elems a /\ lognorm r = (- lognorm b)%R.
+Proof. exact normal_div_mul_partial. Qed.
+
+Theorem C17_normal_pow_add_msg_partial : forall (a : rmsg) (j k : R), normal_valid a -> (0 < j)%R -> (0 < k)%R ->
+  let l := b_sum Rops (b_pow Rops a j) [b_pow Rops a k] in
+  let r := b_pow Rops a (j + k)%R in
+  fam l = fam r /\ bmeta l = bmeta r /\ elems l = elems r /\ lognorm l = 0%R /\ lognorm r = ((j + k) * lognorm a)%R.
+Proof. exact normal_pow_add_partial. Qed.
+
+(* zeros_like of a NormalMessage: a NaturalNormal with zero natural parameters, unit of the product *)
+Theorem C17_normal_zeros : forall a : rmsg, normal_valid a ->
+  fam (b_zeros Rops a) = FNatural /\ bmeta (b_zeros Rops a) = bmeta a
+  /\ nat_of Rops (b_zeros Rops a) = map (map (fun _ => 0%R)) (nat_of Rops a)
+  /\ elems (b_sum Rops a [b_zeros Rops a]) = elems a /\ bmeta (b_sum Rops a [b_zeros Rops a]) = bmeta a.
+Proof. exact normal_zeros. Qed.
+
 (* ===== projection: weighted moment matching ===== *)
+(* AbstractMessage.project for one element of a normal message, end to end: statistics invariant under the
+   stabilising shift by max(lw), member = weighted mean / second moment, log_norm = ln(mean weight) *)
+Theorem C17_normal_project_end_to_end : forall xs lws : list R, length xs = length lws -> lws <> [] ->
+  let W := seqsum Rops (expw lws) in
+  let m1 := (seqsum Rops (map2 Rmult xs (expw lws)) / W)%R in
+  let m2 := (seqsum Rops (map2 Rmult (map (fun x => x * x)%R xs) (expw lws)) / W)%R in
+  (m1 * m1 < m2)%R ->
+  exists sg, proj_col Rops FNormal xs lws = ([m1; sg], ln (W / INR (length lws)))
+             /\ (0 < sg)%R /\ (sg * sg + m1 * m1 = m2)%R.
+Proof. exact normal_proj_col. Qed.
+
+(* gamma moment matching, assuming invpsilog inverts psi(x) - ln x (checked numerically against a root finder) *)
+Theorem C17_gamma_project : forall psi invpl : R -> R,
+  (forall c, (c < 0)%R -> (psi (invpl c) - ln (invpl c) = c)%R /\ (0 < invpl c)%R) ->
+  forall lx x : R, (0 < x)%R -> (lx < ln x)%R ->
+  exists alpha beta, of_nat (RopsG invpl) FGamma (from_suff (RopsG invpl) FGamma [lx; x]) = [alpha; beta]
+    /\ (0 < alpha)%R /\ (0 < beta)%R /\ (psi alpha - ln beta = lx)%R /\ (alpha / beta = x)%R.
+Proof. exact gamma_moment_match. Qed.
+
 Theorem C17_project_weighted_mean : forall t w : list Q, length t = length w -> w <> [] -> ~ (seqsum Qops w == 0)%Q ->
   (wstat Qops t (fst (norm_weights Qops w)) == seqsum Qops (map2 Qmult t w) / seqsum Qops w)%Q.
 Proof. exact project_weighted_mean. Qed.
